@@ -363,8 +363,10 @@ FOR_LOOP:
 			// NOTE: we can probably make this more efficient, but note that calling
 			// first.Hash() doesn't verify the tx contents, so MakePartSet() is
 			// currently necessary.
-			err := state.Validators.VerifyCommitLight(
-				chainID, firstID, first.Height, second.LastCommit)
+			// second.LastCommit is stored as the seen commit of first below, so all
+			// of its signatures are verified, not just +2/3 of them.
+			err := bc.VerifySeenCommit(
+				chainID, state.Validators, firstID, first.Height, second.LastCommit)
 
 			if err == nil {
 				// validate the block before we persist it
